@@ -411,6 +411,10 @@ func driveBurst(r *rand.Rand, w *bufio.Writer, id int, maxAtoms int, cv *coverOu
 	e := newExec(u, w, id, r.Int63())
 	e.begin()
 	ga, _ := u.project(gens[0])
+	if r.Intn(5) == 0 {
+		drivePointwise(r, w, id, cv)
+		return
+	}
 	if cap != 260 && r.Intn(3) == 0 {
 		// DEPLETION: a run chunk that is efficient only thanks to its long runs loses exactly those (no run is split):
 		// what remains are isolated values, for which the run encoding is the most expensive one
@@ -509,6 +513,103 @@ func driveBurst(r *rand.Rand, w *bufio.Writer, id int, maxAtoms int, cv *coverOu
 	for k, v := range e.cover {
 		cv.Ops[k] += v
 	}
+}
+
+// drivePointwise: single-value updates that carry a chunk across a representation threshold one value at a time:
+// (a) a run of n consecutive values loses every other value (each removal splits a run: run encoding becomes the most
+// expensive one), (b) a chunk of 4096 +/- a few scattered values gains / loses single values across 4096. Every value
+// that is touched is its own atom; the updates go through Remove, CheckedRemove, Add, CheckedAdd, Flip of one value.
+func drivePointwise(r *rand.Rand, w *bufio.Writer, id int, cv *coverOut) {
+	key := pick(r, []uint64{0, 3, 0x7FFF, 0xFFFF})
+	base := key << 16
+	var gens []iset
+	var cuts []uint64
+	var pts []uint64
+	mode := r.Intn(3)
+	switch mode {
+	case 0: // a run, every other value removed
+		n := uint64(60 + 2*r.Intn(60))
+		lo := base + uint64(r.Intn(60000))
+		gens = append(gens, iset{span{lo, lo + n - 1}})
+		for v := lo; v < lo+n; v++ {
+			cuts = append(cuts, v)
+		}
+		cuts = append(cuts, lo+n)
+		for v := lo + 1; v < lo+n; v += 2 {
+			pts = append(pts, v)
+		}
+	default: // scattered values around the 4096 threshold plus a dozen single values
+		m := 4090 + r.Intn(5)
+		var sp []span
+		for _, p := range r.Perm(60000)[:m] {
+			sp = append(sp, span{base + 100 + uint64(p), base + 100 + uint64(p)})
+		}
+		body := normalize(sp)
+		gens = append(gens, body)
+		var ps []span
+		for i := 0; i < 12; i++ {
+			v := base + uint64(2+7*i)
+			pts = append(pts, v)
+			ps = append(ps, span{v, v})
+			cuts = append(cuts, v, v+1)
+		}
+		gens = append(gens, normalize(ps))
+	}
+	u, err := vennUniverse(32, cuts, gens)
+	if err != nil {
+		panic(err)
+	}
+	u.computeShifts([]int64{0})
+	u.Name = "pointwise"
+	e := newExec(u, w, id, r.Int63())
+	e.begin()
+	atomOf := func(v uint64) int {
+		a, _ := u.project(iset{span{v, v}})
+		if len(a) != 1 {
+			panic("pointwise: value is not an atom")
+		}
+		return a[0]
+	}
+	ga, _ := u.project(gens[0])
+	switch mode {
+	case 0:
+		e.run(Call{Op: "Build", Dst: 1, As: ga, Rcp: pick(r, []string{"R", "Ro", "Rok"})})
+		rm := pick(r, []string{"Remove", "CheckedRemove", "Flip1", "CheckedRemove"})
+		for _, v := range pts {
+			e.pointUpdate(rm, 1, atomOf(v), u)
+		}
+	default:
+		e.run(Call{Op: "Build", Dst: 1, As: ga, Rcp: pick(r, []string{"M", "A", "R", "Mo"})})
+		add := pick(r, []string{"Add", "CheckedAdd", "AddInt", "Flip1"})
+		rm := pick(r, []string{"Remove", "CheckedRemove", "Flip1", "CheckedRemove"})
+		for _, v := range pts { // up across 4096 ...
+			e.pointUpdate(add, 1, atomOf(v), u)
+		}
+		if r.Intn(2) == 0 {
+			e.run(Call{Op: "RunOptimize", X: 1})
+		}
+		for _, v := range pts { // ... and down again
+			e.pointUpdate(rm, 1, atomOf(v), u)
+		}
+	}
+	e.run(Call{Op: "Card", X: 1})
+	e.run(Call{Op: "Ser", X: 1, V: r.Intn(4)})
+	e.run(Call{Op: "RunOptimize", X: 1})
+	e.run(Call{Op: "Card", X: 1})
+	cv.Traces++
+	cv.Events += e.events
+	for k, v := range e.cover {
+		cv.Ops[k] += v
+	}
+}
+
+func (e *Exec) pointUpdate(op string, x, atom int, u *Universe) {
+	if op == "Flip1" {
+		c := u.atom(atom).Cell
+		e.run(Call{Op: "Flip", X: x, C0: c, C1: c + 1})
+		return
+	}
+	e.run(Call{Op: op, X: x, A: atom})
 }
 
 // driveKernel: the container-kernel matrix. One chunk key (sometimes a second, adjacent one), operand A and B
